@@ -207,6 +207,12 @@ pub mod verif_hdr {
     pub use super::h2::Prioriser;
     pub use super::pkawa::{handle_header, handle_trailer};
 
+    /// `pkawa::elide_proxy_owned_trailers` (request trailer elision run by
+    /// mux/h1.rs and mux/h2.rs right after trailer fields were parsed).
+    pub fn elide_proxy_owned_trailers(kawa: &mut super::GenericHttpStream, sozu_id_header: &[u8]) {
+        super::pkawa::elide_proxy_owned_trailers(kawa, sozu_id_header)
+    }
+
     /// `shared::apply_response_header_edits` (per-frontend response edits, HSTS).
     pub fn apply_response_header_edits(
         kawa: &mut super::GenericHttpStream,
